@@ -151,6 +151,24 @@ Literal == /\ SpecU("s") = El(PInt(1), {})
            /\ V0Coef(QOne, SpecU("s")) = <<2, 1>>
            /\ V0Coef(QOne, SpecU("p")) = <<4, 3>>
            /\ Moment(QOne, 1) = <<1, 4>> /\ Moment(QOne, 2) = <<3, 8>>
+\* (10) "the unnormalised variants differ by the documented constant factor": the docstrings give
+\*      s: (pi/alpha)^(3/2)          p: 3 pi^(3/2) / (2 alpha^(5/2))
+\*      i.e.  DocNormCoef * pi^(3/2) * alpha^-(l + 3/2); the factor DERIVED in (6) is
+\*      4 pi sqrt(pi/alpha) Moment(alpha, l+1) = 4 Moment(1, l+1) * pi^(3/2) * alpha^-(l + 3/2)
+DocNormCoef(kind_) == IF kind_ = "s" THEN <<1, 1>> ELSE <<3, 2>>
+DocNormIsDerived == On => /\ QMul(QI(4), Moment(QOne, LOf(ck) + 1)) = DocNormCoef(ck)
+                          /\ QMul(Moment(ca, LOf(ck) + 1), QPow(ca, LOf(ck) + 1)) = Moment(QOne, LOf(ck) + 1)
+\* (11) "tend to total charge over r at large r":  r V - Q = Q (erf - 1) + B(r) E with B a polynomial
+\*      (no erf-free, E-free remainder), so |r V / Q - 1| <= erfc(x) + |B(r)| E, x = sqrt(alpha) r.
+\*      For the derived potentials B(r) = c r with |c| <= 2/3, for the documented ones |c| <= 4/3:
+\*      |c| r E = |c| x exp(-x^2) / sqrt(pi).  At x >= FarX = 7: erfc(7) < 5e-23, (4/3) 7 exp(-49)/sqrt(pi)
+\*      < 3e-21 and both decrease, i.e. r V = Q to every digit a float can hold - whichever tail
+\*      coefficient the implementation uses.  The harness states this as a clause of its own.
+FarX == 7
+FarFieldForm == On => /\ SpecU(ck).a = PConst(QOne) /\ CodeU(ck).a = PConst(QOne)
+                      /\ \A u_ \in {SpecU(ck), CodeU(ck)} :
+                            /\ IsOrdinary(u_.b) /\ \A t_ \in u_.b : t_[1] = 1
+                            /\ QLe(QAbs(PCoef(u_.b, 1)), <<4, 3>>)
 \* non-vacuity: the lattice contains non-solutions and the code's coefficient
 NonVacuous == /\ <<4, 3>> \in Lattice /\ <<-2, 3>> \in Lattice /\ QZero \in Lattice
               /\ Cardinality(Lattice) > 40
@@ -174,6 +192,8 @@ UnnormRhoDocTree(kind_) == Mul(Pow(R, 2 * LOf(kind_)), Exp(Neg(Mul(Alpha, Sq(R))
 NormTree(kind_) == Mul(Mul(CI(4), Pi),
                        Mul(Sqrt(Div(Pi, Alpha)),
                            Div(CQ(Moment(QOne, LOf(kind_) + 1)), Pow(Alpha, LOf(kind_) + 1))))
+\* the constant the docstrings give for the unnormalised variants (clause (10))
+DocNormTree(kind_) == Div(Mul(CQ(DocNormCoef(kind_)), PowR(Pi, C(3, 2))), PowR(Alpha, C(2 * LOf(kind_) + 3, 2)))
 \* distance of the point (x,y,z) from the centre (X,Y,Z)
 DistTree == Sqrt(Add(Add(Sq(Sub(V("x"), V("X"))), Sq(Sub(V("y"), V("Y")))), Sq(Sub(V("z"), V("Z")))))
 
@@ -182,7 +202,8 @@ Trees == [k_ \in Kinds |->
              CodeV |-> VTree(CodeU(k_)), CodeV0 |-> Mul(CQ(CodeV0(k_)), Sqrt(Div(Alpha, Pi))),
              V2 |-> CQ(V2Coef(QOne, SpecU(k_))),
              RhoAlg |-> RhoAlgTree(k_), RhoDoc |-> RhoDocTree(k_),
-             UnnormRhoDoc |-> UnnormRhoDocTree(k_), Norm |-> NormTree(k_)]]
+             UnnormRhoDoc |-> UnnormRhoDocTree(k_), Norm |-> NormTree(k_),
+             DocNorm |-> DocNormTree(k_), VInf |-> CI(0), FarX |-> CI(FarX)]]
 Emit == JsonSerialize("coulomb_trees.json", [s |-> Trees["s"], p |-> Trees["p"], dist |-> DistTree])
 ASSUME Emit
 
@@ -216,6 +237,16 @@ ParamExpected(o_) ==
 ParamsConform ==
     ck = "none" => \A i_ \in 1..Len(ParamObs) :
                       ParamExpected(ParamObs[i_]) \/ PrintT(<<"MISMATCH", i_, ParamObs[i_], CanonOf(ParamObs[i_])>>)
+\* the lazily loaded table is STATE (anchor "lazy parameter cache"): an observation may carry
+\*   cold = 1 iff the same lookup made again right after the table was forgotten (first use in a
+\*          fresh process) gave the same outcome - the same arrays, or the same refusal; -1 = not taken
+\*   coldnext = 1 iff a lookup of a fitted element made right after that one (table loaded by a lookup
+\*          that may have been refused) returned the arrays of the shipped file; -1 = not taken
+ParamColdExpected(o_) == /\ ("cold" \in DOMAIN o_ => o_.cold \in {1, -1})
+                         /\ ("coldnext" \in DOMAIN o_ => o_.coldnext \in {1, -1})
+ParamsColdConform ==
+    ck = "none" => \A i_ \in 1..Len(ParamObs) :
+                      ParamColdExpected(ParamObs[i_]) \/ PrintT(<<"COLDMISMATCH", i_, ParamObs[i_], CanonOf(ParamObs[i_])>>)
 ParamsTableSane == /\ Len(ParamKeys) >= 1 /\ KeySet \subseteq {Symbol[i_] : i_ \in 1..Len(Symbol)}
                    /\ \A i_ \in 1..Len(ParamKeys) : ParamLen[i_] >= 1
 =============================================================================
